@@ -33,8 +33,8 @@ RULE = ('initial meshes {line(3), rectilinear 2x2, rectilinear 3x2 periodic in x
         'level sets per mesh (through interiors / through vertices / along element edges / missing the domain, every cut on a multiple of 1/8 of an '
         'edge) x maxrefine {0,1,2} (thorough: all 24 combinations, quick: 15)}; uniform refinement and * line only while the result has <= 256 elements. '
         'All sequences of depth <= 2 over this menu; depth 3: quick = below every depth-2 chain that contains a trim or a refined_by, the closing '
-        'operations {refined, refined_by([0]), boundary, interfaces}; thorough = below every depth-2 chain a reduced menu (all refined_by subsets if <= 6 '
-        'elements, 3 takes, 1 slice per axis, groups, 1 union, 1 difference, * line, 6 trims + complements, boundary, interfaces). States are '
+        'operations {refined, refined_by([0]), boundary, interfaces}; thorough = below every depth-2 chain a reduced menu (refined_by: all subsets if <= 4 elements, singletons + all if <= 6 '
+        'elements, else 4 of the family; 3 takes, 1 slice per axis, groups, 1 union, 1 difference, * line, 6 trims + complements, boundary, interfaces). States are '
         'deduplicated on (topology class signature, canonical cell set). non-trivial = distinct (class signature, cell set) with >= 1 element, reached '
         'by >= 1 operation and fully compared with the model')
 ASSUMPTIONS = ['the geometry of every initial mesh is affine per element (verified when the mesh is built); all level sets are linear with dyadic cuts, so the '
